@@ -31,6 +31,14 @@ def _once_per_motif(o, fn, loop, acc_name, key_vertex, what):
         o.undecided(f"{what}: expected one `{acc_name} *= ...` in the neighbour loop", fn, loop)
         return
     m = muls[0]
+    # the product starts at 1, afresh for every vertex
+    outer_ = par.loops_of(loop)
+    inits_ = [s for s in (outer_[0].body if outer_ else fn.node.body) if isinstance(s, ast.Assign) and len(s.targets) == 1 and txt(s.targets[0]) == acc_name]
+    if len(inits_) == 1 and astx.const_value(inits_[0].value) is not None:
+        if astx.const_value(inits_[0].value) == 1:
+            o.holds(fn, inits_[0], f"{what}: the product starts at 1 for every vertex")
+        else:
+            o.violated(fn, inits_[0], f"{what}: the product starts at {astx.const_value(inits_[0].value)!r}, not at 1: every message / vertex term is scaled by it (0: everything vanishes)")
     b = match(pat("self._H_tau[$v, $id]"), m.value) or match(pat("self._H_tau[($v, $id)]"), m.value)
     if b is None:
         o.undecided(f"{what}: factor `{txt(m.value)}` is not a message self._H_tau[(v, id)]", fn, m)
@@ -284,6 +292,46 @@ def run(ctx):
             else:
                 o.undecided("final neighbour loop not recognised", th, vl[0])
 
+    with ctx.obligation("C17.4", "grouping by motif merges ALL neighbours of one motif (not only adjacent ones)") as og:
+        # itertools.groupby only merges CONSECUTIVE equal keys: as a once-per-motif device it needs its input sorted by that key
+        n_gb = 0
+        for m_ in ci.methods.values():
+            msc_ = Scope(m_.node)
+            for n_ in ast.walk(m_.node):
+                if isinstance(n_, ast.Call) and txt(n_.func) in ("itertools.groupby", "groupby") and n_.args:
+                    n_gb += 1
+                    src_ = msc_.resolve(n_.args[0])
+                    key_ = next((k.value for k in n_.keywords if k.arg == "key"), n_.args[1] if len(n_.args) > 1 else None)
+                    srt_ = isinstance(src_, ast.Call) and txt(src_.func) == "sorted"
+                    skey_ = next((k.value for k in src_.keywords if k.arg == "key"), None) if srt_ else None
+                    if srt_ and ((key_ is None and skey_ is None) or (key_ is not None and skey_ is not None and txt(key_) == txt(skey_))):
+                        og.holds(m_, n_, "groupby over input sorted by the same key")
+                    elif isinstance(n_.args[0], ast.Name) and n_.args[0].id in m_.params and not srt_ and \
+                            [c_ for m2_ in ci.methods.values() for c_ in ast.walk(m2_.node) if isinstance(c_, ast.Call) and txt(c_.func) == f"self.{m_.name}"]:
+                        # the grouped collection is handed in: look at what the callers of this helper pass
+                        pidx_ = [q for q in m_.params if q != "self"].index(n_.args[0].id)
+                        bad_ = []
+                        for m2_ in ci.methods.values():
+                            sc2_ = Scope(m2_.node)
+                            for c_ in ast.walk(m2_.node):
+                                if isinstance(c_, ast.Call) and txt(c_.func) == f"self.{m_.name}":
+                                    a_ = next((k.value for k in c_.keywords if k.arg == n_.args[0].id), c_.args[pidx_] if pidx_ < len(c_.args) else None)
+                                    r_ = sc2_.resolve(a_) if a_ is not None else None
+                                    if not (isinstance(r_, ast.Call) and txt(r_.func) == "sorted"):
+                                        bad_.append((m2_, c_, a_))
+                        if bad_:
+                            og.violated(bad_[0][0], bad_[0][1], f"`{txt(bad_[0][1])[:60]}` hands `{txt(bad_[0][2])[:40] if bad_[0][2] is not None else '?'}` (not sorted by motif) to `{m_.name}`, which groups it with "
+                                                                f"itertools.groupby: only CONSECUTIVE neighbours of one motif are merged, a motif met again later contributes its message a second time", sure=True)
+                        else:
+                            og.holds(m_, n_, "every caller passes the neighbours sorted")
+                    elif isinstance(n_.args[0], ast.Name) and n_.args[0].id in m_.params and not srt_:
+                        og.undecided(f"`{txt(n_)[:60]}` groups a parameter: whether callers pass it sorted by motif is not recognised", m_, n_)
+                    else:
+                        og.violated(m_, n_, f"`{txt(n_)[:70]}` groups `{txt(n_.args[0])[:30]}`, which is not sorted by that key: groupby merges only CONSECUTIVE equal keys, so a motif whose "
+                                            "members are not adjacent in the neighbour order contributes its message more than once", sure=True)
+        if not n_gb:
+            og.holds(None, None, "no itertools.groupby in MessagePassing", construct="scan")
+
     with ctx.obligation("C17.5", "message stored under (focal, id) of its own label; evaluator input named by (focal, id) and carrying the products as 'u'", floor=3) as o:
         csc = Scope(ch.node)
         focal, label = ch.params[1], ch.params[2]
@@ -379,7 +427,11 @@ def run(ctx):
                 o.undecided(f"MessagePassingMixin.{name} not found")
                 continue
             body = astx.strip_logging(m.body)
-            lp = m.params[1]
+            own_ = [q for q in m.params if q not in ("self", "cls")]      # the parser may have become a @staticmethod
+            if not own_:
+                o.undecided(f"{name} takes no label", m)
+                continue
+            lp = own_[0]
             if len(body) == 1 and isinstance(body[0], ast.Return) and match(pat(p.replace("$l", lp)), body[0].value) is not None:
                 o.holds(m, body[0], f"{name}: {p.replace('$l', 'label')}")
             elif len(body) == 1 and isinstance(body[0], ast.Return) and "split('-')" in txt(body[0].value):
